@@ -373,3 +373,21 @@ pub fn list_len(this: Option<SourcedValue>, args: Vec<SourcedValue>)
 
 // `assert_args` asserts that""")],
          note="a new (unregistered) builtin and a new leaf error with a message")
+refactor("gen-operator-fn-param-order",
+         [(E, "fn apply_binary_operation(\n    op: &BinaryOp,\n    op_loc: &Location,\n    lhs: &Value,\n    rhs: &Value,\n)",
+              "fn apply_binary_operation(\n    lhs: &Value,\n    op: &BinaryOp,\n    rhs: &Value,\n    op_loc: &Location,\n)"),
+          (E, "            let v = apply_binary_operation(op, op_loc, &lhs_val.v, &rhs_val.v)",
+              "            let v = apply_binary_operation(&lhs_val.v, op, &rhs_val.v, op_loc)"),
+          (B, "            eval::apply_binary_operation(\n                &op,\n                &op_loc,\n                &lhs.v,\n                &rhs.v,\n            )",
+              "            eval::apply_binary_operation(\n                &lhs.v,\n                &op,\n                &rhs.v,\n                &op_loc,\n            )"),
+          (B, "                    eval::apply_binary_operation(\n                        &op,\n                        &op_loc,\n                        &lhs_val.v,\n                        &rhs_val.v,\n                    )",
+              "                    eval::apply_binary_operation(\n                        &lhs_val.v,\n                        &op,\n                        &rhs_val.v,\n                        &op_loc,\n                    )")],
+         note="parameter order of the operator function changed consistently")
+refactor("gen-eq-lists-with-zip",
+         [(E, "            for (i, x) in xs.iter().enumerate() {\n                let y = &ys[i];\n",
+              "            for (i, (x, y)) in xs.iter().zip(ys.iter()).enumerate() {\n")],
+         note="element-wise list comparison written with zip")
+refactor("gen-explicit-lock-instead-of-macro",
+         [(E, "            let items = &lock_deref!(items);\n\n            let mut pairs = Vec::with_capacity(items.len());",
+              "            let guard = items.try_lock().unwrap();\n            let items = &*guard;\n\n            let mut pairs = Vec::with_capacity(items.len());")],
+         note="lock_deref! expanded by hand in value_to_pairs")
